@@ -82,7 +82,8 @@ class TokenInterfaceError(errors.InterfaceError, tokenize.TokenError):
 def generated_tokens(text):
     try:
         toky = list(tokenize.generate_tokens(_compat.token_io_readline(text)))
-    except tokenize.TokenError as error:
+    except (tokenize.TokenError, IndentationError) as error:
+        # NOTE: Text spanning multiple lines with inconsistent indentation raises IndentationError instead of TokenError.
         raise TokenInterfaceError("cannot split %s into tokens: %s" % (_compat.text_repr(text), error))
     if len(toky) >= 2 and is_newline_token(toky[-2]) and is_eof_token(toky[-1]):
         # HACK: Remove newline that generated_tokens() adds starting with Python 3.x but not before.
